@@ -5,5 +5,5 @@
 use crate::common::*;
 
 pub fn groups() -> Vec<Box<dyn Group>> {
-    vec![Box::new(super::c01::EnfGroup { prop: "C02" })]
+    vec![Box::new(super::c01::EnfGroup { prop: "C02", free: false }), Box::new(super::c01::EnfGroup { prop: "C02", free: true })]
 }
